@@ -25,6 +25,7 @@ import (
 	"sort"
 	"sync"
 	"sync/atomic"
+	"syscall"
 	"time"
 
 	"github.com/google/gopacket"
@@ -305,6 +306,13 @@ func (s *recScanner) Scan(ctx context.Context, r *scan.Request) (scan.Result, er
 
 type ctxKey struct{}
 
+// timeoutErr is a net.Error whose Timeout() is true (a read deadline that expired).
+type timeoutErr struct{}
+
+func (*timeoutErr) Error() string   { return "i/o timeout" }
+func (*timeoutErr) Timeout() bool   { return true }
+func (*timeoutErr) Temporary() bool { return true }
+
 func wrapCase(r *hlib.SplitMix64, id int) row {
 	o := row{Kind: "wrap", ID: id, RetOK: true}
 	l := &callLog{}
@@ -314,12 +322,12 @@ func wrapCase(r *hlib.SplitMix64, id int) row {
 	rw := packet.NewRateLimitReadWriter(drw, lim)
 	sc := scan.NewRateLimitScanner(dsc, lim)
 	k := 1 + r.Intn(40)
-	style := r.Intn(4) // 0 mixed, 1 reads only, 2 writes only, 3 scans only
-	o.Class = []string{"mixed", "reads-only", "writes-only", "scans-only"}[style]
+	style := r.Intn(5) // 0 mixed, 1 reads only, 2 writes only, 3 scans only, 4 reads that all fail temporarily
+	o.Class = []string{"mixed", "reads-only", "writes-only", "scans-only", "temporary-read-errors"}[style]
 	for i := 0; i < k; i++ {
 		kind := r.Intn(3)
 		switch style {
-		case 1:
+		case 1, 4:
 			kind = 1
 		case 2:
 			kind = 0
@@ -347,14 +355,32 @@ func wrapCase(r *hlib.SplitMix64, id int) row {
 			drw.readData = []byte{byte(i), 2, 3}
 			drw.readCI = &gopacket.CaptureInfo{Length: i}
 			drw.readErr = nil
-			if r.Intn(4) == 0 {
-				drw.readErr = io.ErrNoProgress
+			cls := int64(0)
+			// temporary errors (what the afpacket source returns on a quiet wire, what the receiver retries) and others
+			switch r.Intn(8) {
+			case 0:
+				drw.readErr, cls = syscall.EAGAIN, 1
+			case 1:
+				drw.readErr, cls = syscall.ECONNRESET, 2
+			case 2:
+				drw.readErr, cls = &timeoutErr{}, 3
+			case 3:
+				drw.readErr, cls = io.ErrNoProgress, 4
+			case 4:
+				drw.readErr, cls = fmt.Errorf("wrapped: %w", syscall.EAGAIN), 5
 			}
+			if style == 4 && cls == 0 {
+				drw.readErr, cls = syscall.EAGAIN, 1
+			}
+			t0 := time.Now()
 			data, ci, err := rw.ReadPacketData()
+			if time.Since(t0) > 200*time.Millisecond {
+				o.RetOK = false
+			}
 			if err != drw.readErr || ci != drw.readCI || len(data) != 3 || &data[0] != &drw.readData[0] {
 				o.RetOK = false
 			}
-			o.Ops = append(o.Ops, [2]int64{1, 0})
+			o.Ops = append(o.Ops, [2]int64{1, cls})
 		default:
 			port := uint16(r.Intn(65536))
 			req := &scan.Request{DstPort: port}
@@ -457,6 +483,190 @@ func pipeCase(r *hlib.SplitMix64, id int) row {
 	for range errc {
 	}
 	o.Takes, o.Writes, o.Reads = atomic.LoadInt64(&lim.n), atomic.LoadInt64(&prw.writes), atomic.LoadInt64(&prw.reads)
+	return o
+}
+
+// ---------------------------------------------------------------- rxlat (real sender + receiver, REAL limiter, quiet source)
+
+// quietRW behaves like the afpacket source on a quiet wire: a read blocks for a poll timeout and
+// fails with EAGAIN (or another temporary error), until a frame is made available.
+type quietRW struct {
+	mu        sync.Mutex
+	t0        time.Time
+	poll      time.Duration
+	frameAt   time.Duration // the frame is on the "wire" from this moment on
+	delivered bool
+	errs      []error
+	nerr      int
+	writes    int64
+}
+
+func (q *quietRW) WritePacketData(pkt []byte) error {
+	atomic.AddInt64(&q.writes, 1)
+	return nil
+}
+
+func (q *quietRW) ReadPacketData() ([]byte, *gopacket.CaptureInfo, error) {
+	deadline := time.Now().Add(q.poll)
+	for {
+		q.mu.Lock()
+		if !q.delivered && time.Since(q.t0) >= q.frameAt {
+			q.delivered = true
+			q.mu.Unlock()
+			return []byte{0xde, 0xad, 0xbe, 0xef}, &gopacket.CaptureInfo{Length: 4, CaptureLength: 4}, nil
+		}
+		q.mu.Unlock()
+		if time.Now().After(deadline) {
+			q.mu.Lock()
+			e := q.errs[q.nerr%len(q.errs)]
+			q.nerr++
+			q.mu.Unlock()
+			return nil, nil, e
+		}
+		time.Sleep(500 * time.Microsecond)
+	}
+}
+
+type latMethod struct {
+	m        int
+	t0       time.Time
+	procAt   int64
+	results  chan scan.Result
+	procDone chan struct{}
+	once     sync.Once
+}
+
+func (pm *latMethod) Packets(ctx context.Context, r *scan.Range) <-chan *packet.BufferData {
+	out := make(chan *packet.BufferData)
+	go func() {
+		defer close(out)
+		for i := 0; i < pm.m; i++ {
+			buf := packet.NewSerializeBuffer()
+			b, _ := buf.AppendBytes(14)
+			b[0] = byte(i)
+			select {
+			case <-ctx.Done():
+				return
+			case out <- &packet.BufferData{Buf: buf}:
+			}
+		}
+	}()
+	return out
+}
+
+func (pm *latMethod) ProcessPacketData(data []byte, ci *gopacket.CaptureInfo) error {
+	pm.once.Do(func() {
+		atomic.StoreInt64(&pm.procAt, int64(time.Since(pm.t0)))
+		close(pm.procDone)
+	})
+	return nil
+}
+
+func (pm *latMethod) Results() <-chan scan.Result { return pm.results }
+
+// rxlatCase: the real sender and receiver (scan.SetupPacketEngine) around the real
+// NewRateLimitReadWriter with the REAL limiter at a low rate; the source is quiet (temporary read
+// errors) and then delivers one frame.  Observed: how long after the frame was on the wire the
+// processor got it.  Receiving must not wait for the limiter.
+func rxlatCase(id int) row {
+	kinds := [][]error{{syscall.EAGAIN}, {syscall.ECONNRESET}, {&timeoutErr{}}, {syscall.EAGAIN, &timeoutErr{}, syscall.ECONNRESET}}
+	names := []string{"EAGAIN", "ECONNRESET", "timeout", "mixed"}
+	o := row{Kind: "rxlat", ID: id, Class: "rxlat/" + names[id%len(kinds)], RateStr: "1/400ms", Rate: 1, Per: int64(400 * time.Millisecond), ParseOK: true, RetOK: true}
+	t0 := time.Now()
+	q := &quietRW{t0: t0, poll: 5 * time.Millisecond, frameAt: 150 * time.Millisecond, errs: kinds[id%len(kinds)]}
+	pm := &latMethod{m: 2, t0: t0, results: make(chan scan.Result), procDone: make(chan struct{})}
+	lim := ratelimit.New(1, ratelimit.Per(400*time.Millisecond))
+	engine := scan.SetupPacketEngine(packet.NewRateLimitReadWriter(q, lim), pm)
+	ctx, cancel := context.WithCancel(context.Background())
+	_, errc := engine.Start(ctx, &scan.Range{})
+	select {
+	case <-pm.procDone:
+	case <-time.After(3 * time.Second):
+	}
+	cancel()
+	go func() {
+		for range errc {
+		}
+	}()
+	o.Starts = []int64{int64(q.frameAt), atomic.LoadInt64(&pm.procAt)} // (frame on the wire, frame processed; 0 = never)
+	o.Writes = atomic.LoadInt64(&q.writes)
+	q.mu.Lock()
+	o.Reads = int64(q.nerr)
+	q.mu.Unlock()
+	return o
+}
+
+// ---------------------------------------------------------------- engslow (worker-bound first, then fast)
+
+type phaseScanner struct {
+	mu     sync.Mutex
+	t0     time.Time
+	slowN  int
+	slow   time.Duration
+	n      int
+	starts []time.Time
+}
+
+func (s *phaseScanner) Scan(ctx context.Context, r *scan.Request) (scan.Result, error) {
+	t := time.Now()
+	s.mu.Lock()
+	s.starts = append(s.starts, t)
+	s.n++
+	slow := s.n <= s.slowN
+	s.mu.Unlock()
+	if slow {
+		select {
+		case <-time.After(s.slow):
+		case <-ctx.Done():
+		}
+	}
+	return nil, nil
+}
+
+// engSlowCase: the application engine (hook: parseRawOptions + newScanEngine) with more than ten
+// workers; the first targets are slow (every worker is busy, nobody asks the limiter for longer
+// than the number of workers times W/N), the rest answer at once.
+func engSlowCase(id int, rateStr string, workers int, slow time.Duration, total int) row {
+	o := row{Kind: "eng", ID: id, Class: "eng/slow-then-fast", RateStr: rateStr, Workers: workers, RetOK: true}
+	cnt, win, err := command.VerifC15ParseRateLimit(rateStr)
+	if err != nil {
+		o.Err = "parse: " + err.Error()
+		return o
+	}
+	o.Rate, o.Per, o.ParseOK = int64(cnt), int64(win), true
+	ctx, cancel := context.WithCancel(context.Background())
+	defer cancel()
+	ts := &phaseScanner{slowN: workers, slow: slow}
+	engine, err := command.VerifC15NewGenericEngine(ctx, rateStr, workers, ts)
+	if err != nil {
+		o.Err = "engine: " + err.Error()
+		return o
+	}
+	_, subnet, _ := net.ParseCIDR("10.9.0.0/30")
+	rng := &scan.Range{DstSubnet: subnet, Ports: []*scan.PortRange{{StartPort: 1, EndPort: uint16(total / 4)}}}
+	o.M = 4 * (total / 4)
+	go func() {
+		for range engine.Results() {
+		}
+	}()
+	t0 := time.Now()
+	done, errc := engine.Start(ctx, rng)
+	go func() {
+		for range errc {
+		}
+	}()
+	select {
+	case <-done:
+	case <-time.After(60 * time.Second):
+		o.Err = "stuck: engine did not finish"
+	}
+	ts.mu.Lock()
+	for _, t := range ts.starts {
+		o.Starts = append(o.Starts, int64(t.Sub(t0)))
+	}
+	ts.mu.Unlock()
+	sort.Slice(o.Starts, func(i, j int) bool { return o.Starts[i] < o.Starts[j] })
+	o.Scans = int64(len(o.Starts))
 	return o
 }
 
@@ -725,6 +935,29 @@ func main() {
 	}
 	if want("chunk", 0) {
 		w.Put(chunkCase())
+	}
+	if *neng > 0 {
+		// slow-then-fast engine run and the quiet-source receive latency runs, side by side
+		var wg sync.WaitGroup
+		extra := make([]row, 5)
+		run := func(i int, kind string, id int, f func() row) {
+			if !want(kind, id) {
+				return
+			}
+			wg.Add(1)
+			go func() { defer wg.Done(); extra[i] = f() }()
+		}
+		run(0, "eng", 100, func() row { return engSlowCase(100, "100/s", 25, 600*time.Millisecond, 100) })
+		for k := 0; k < 4; k++ {
+			k := k
+			run(1+k, "rxlat", k, func() row { return rxlatCase(k) })
+		}
+		wg.Wait()
+		for _, e := range extra {
+			if e.Kind != "" {
+				w.Put(e)
+			}
+		}
 	}
 	if *one != "" && w.N == 0 {
 		fmt.Fprintln(os.Stderr, "no such case:", *one)
